@@ -20,6 +20,7 @@ import (
 	"os"
 	"strings"
 	"sync"
+	"sync/atomic"
 	"time"
 
 	"github.com/enbility/ship-go/ship"
@@ -28,6 +29,7 @@ import (
 type raceResult struct {
 	line string
 	bad  []string
+	obs  []string // what the serial scheduler shows beyond the properties' quantifier (sequences of events): reported, not judged
 }
 
 func isEndState(n int) bool { return n == 15 || n == 16 || n == 17 || n == 39 }
@@ -93,8 +95,13 @@ func runUserRace(id int, seed int64) *raceResult {
 			raced = true
 			gate, hit := make(chan struct{}), make(chan struct{})
 			var once sync.Once
+			var cnt int32
+			skip := int32([]int{0, 0, 1, 2}[g.pick(4)]) // which write of the handler is held: a handler may send more than one message
 			w.mu.Lock()
 			w.blockHook = func() {
+				if atomic.AddInt32(&cnt, 1) <= skip {
+					return
+				}
 				first := false
 				once.Do(func() { first = true })
 				if first {
@@ -116,6 +123,7 @@ func runUserRace(id int, seed int64) *raceResult {
 			select {
 			case <-hit:
 				flush(fmt.Sprintf("EV:msg@%d(blocked-in-write)", st))
+				all = append(all, fmt.Sprintf("PARK:%d", state()))
 				// the other goroutine
 				ok := call(func() {
 					switch userOp {
@@ -235,7 +243,11 @@ func userraceMain(args []string) int {
 		go func(i int) {
 			defer wg.Done()
 			defer func() { <-sem }()
-			res[i] = runUserRace(i, *seed*2654435761+int64(i))
+			if i%2 == 1 {
+				res[i] = runUserSched(i, *seed*2654435761+int64(i))
+			} else {
+				res[i] = runUserRace(i, *seed*2654435761+int64(i))
+			}
 		}(i)
 	}
 	wg.Wait()
@@ -246,6 +258,285 @@ func userraceMain(args []string) int {
 		for _, b := range r.bad {
 			fmt.Fprintf(f, "BAD %d %s\n", i, b)
 		}
+		for _, b := range r.obs {
+			fmt.Fprintf(f, "OBS %d %s\n", i, b)
+		}
 	}
 	return 0
+}
+
+// ---------------------------------------------------------------- serial scheduler
+//
+// The second kind of scenario runs two or three activities of one connection (the handler of the next peer message, a
+// user call, the expiry of the armed timer) under a scheduler of the harness: every transport write and every state
+// report is a scheduling point where the running goroutine parks; exactly one goroutine runs at a time and the
+// harness draws which parked one continues. The recorded order of observations then is the order in which things
+// happened. Judged: C01 (nothing past hello without trust, no completion or setup after a local abort), C08 (every
+// activity reaches a scheduling point or returns, no panic), C11 (the end reported once). The C04 conditions (no progress
+// state after the end, the phase never goes back) are evaluated too but only reported as observations: C04 quantifies
+// over sequences of events, and the pinned code does report progress states from a handler that was under way when
+// another activity ended the connection.
+
+type usGate struct{ ch chan struct{} }
+
+type usSched struct {
+	mu     sync.Mutex
+	active bool
+	parked chan *usGate
+}
+
+func (s *usSched) point() {
+	s.mu.Lock()
+	a := s.active
+	s.mu.Unlock()
+	if !a {
+		return
+	}
+	g := &usGate{ch: make(chan struct{})}
+	s.parked <- g
+	<-g.ch
+}
+
+func (s *usSched) set(v bool) {
+	s.mu.Lock()
+	s.active = v
+	s.mu.Unlock()
+}
+
+type usTask struct {
+	name    string
+	f       func()
+	started bool
+	done    chan struct{}
+	gate    *usGate
+	over    bool
+}
+
+func phaseRank(n int) int {
+	switch {
+	case n <= 5:
+		return 0
+	case n <= 12:
+		return 1
+	case n == 13:
+		return 2
+	case n >= 18 && n <= 25:
+		return 3
+	case n >= 26 && n <= 35:
+		return 4
+	case n == 36:
+		return 5
+	case n == 37:
+		return 6
+	case n == 38:
+		return 7
+	}
+	return -1
+}
+
+func runUserSched(id int, seed int64) *raceResult {
+	g := &gen{rnd: rand.New(rand.NewSource(seed)), ids: []string{"RemoteShipID"}}
+	res := &raceResult{}
+	role, rs := ship.ShipRoleServer, "s"
+	if g.pick(3) == 0 {
+		role, rs = ship.ShipRoleClient, "c"
+	}
+	e := env{paired: g.pick(3) == 0, auto: g.pick(6) == 0, allow: g.pick(4) != 0}
+	r := &rec{}
+	w := &mockWriter{r: r, failAt: -1, reason: "us"}
+	p := &mockProvider{r: r}
+	p.set(e)
+	sc := &usSched{parked: make(chan *usGate, 64)}
+	w.blockHook = sc.point
+	p.hook = sc.point
+	conn := ship.NewConnectionHandler(p, w, role, "LocalShipID", "ski-remote", "")
+	var all []string
+	flush := func(tag string) {
+		if tag != "" {
+			all = append(all, tag)
+		}
+		all = append(all, r.take()...)
+	}
+	state := func() uint {
+		st, _, _, _, _ := conn.VerifSnapshot()
+		return uint(st)
+	}
+	guard := func(f func()) func() {
+		return func() {
+			defer func() {
+				if x := recover(); x != nil {
+					r.add(fmt.Sprintf("PANIC:%v", x))
+				}
+			}()
+			f()
+		}
+	}
+	seq := func(f func()) bool {
+		done := make(chan struct{})
+		go func() { defer close(done); guard(f)() }()
+		select {
+		case <-done:
+			return true
+		case <-time.After(3 * time.Second):
+			return false
+		}
+	}
+	w.beginEvent(-1)
+	seq(func() { conn.Run() })
+	flush("EV:run")
+	raceAt := g.pick(5)
+	userOps := []string{"abort", "approve", "close0", "close1", "connerr", "abort", "approve"}
+	desc := ""
+	raced := false
+	hung := false
+	for step := 0; step < 10 && !hung; step++ {
+		st := state()
+		if isEndState(int(st)) || w.isClosed() || st == 38 {
+			break
+		}
+		msg := g.inPhase(st)
+		if step != raceAt || raced {
+			if !seq(func() { conn.HandleIncomingWebsocketMessage(msg) }) {
+				res.bad = append(res.bad, "C08 a message handler did not return within 3 s")
+				hung = true
+			}
+			flush(fmt.Sprintf("EV:msg@%d", st))
+			continue
+		}
+		raced = true
+		mk := func(op string) *usTask {
+			t := &usTask{name: op, done: make(chan struct{})}
+			switch op {
+			case "msg":
+				t.f = func() { conn.HandleIncomingWebsocketMessage(msg) }
+			case "msg2":
+				m2 := g.inPhase(st)
+				t.f = func() { conn.HandleIncomingWebsocketMessage(m2) }
+			case "abort":
+				t.f = func() { conn.AbortPendingHandshake() }
+			case "approve":
+				t.f = func() { conn.ApprovePendingHandshake() }
+			case "close0":
+				t.f = func() { conn.CloseConnection(false, 0, "") }
+			case "close1":
+				t.f = func() { conn.CloseConnection(true, 0, "us") }
+			case "connerr":
+				t.f = func() { w.setClosed(); conn.ReportConnectionError(fmt.Errorf("transport down")) }
+			case "timeout":
+				t.f = func() { conn.VerifFireTimeout() }
+			}
+			return t
+		}
+		tasks := []*usTask{mk("msg"), mk(userOps[g.pick(len(userOps))])}
+		switch g.pick(4) {
+		case 0:
+			tasks = append(tasks, mk("timeout"))
+		case 1:
+			tasks = append(tasks, mk(userOps[g.pick(len(userOps))]))
+		}
+		for _, t := range tasks {
+			desc += t.name + "+"
+		}
+		sc.set(true)
+		flush(fmt.Sprintf("EV:sched@%d[", st))
+		for n := 0; n < 200 && !hung; n++ {
+			var ready []*usTask
+			for _, t := range tasks {
+				if !t.over {
+					ready = append(ready, t)
+				}
+			}
+			if len(ready) == 0 {
+				break
+			}
+			t := ready[g.pick(len(ready))]
+			if !t.started {
+				t.started = true
+				go func(t *usTask) { defer close(t.done); guard(t.f)() }(t)
+			} else {
+				close(t.gate.ch)
+				t.gate = nil
+			}
+			select {
+			case <-t.done:
+				t.over = true
+				flush("EV:" + t.name + ":returns")
+			case gt := <-sc.parked:
+				t.gate = gt
+				flush("EV:" + t.name + ":parks")
+			case <-time.After(3 * time.Second):
+				res.bad = append(res.bad, fmt.Sprintf("C08 activity %s neither reached a scheduling point nor returned within 3 s (activities %s)", t.name, desc))
+				hung = true
+			}
+		}
+		sc.set(false)
+		// let whatever is still parked go (after a hang)
+		for _, t := range tasks {
+			if t.gate != nil {
+				close(t.gate.ch)
+				t.gate = nil
+			}
+		}
+		flush("EV:]")
+	}
+	sc.set(false)
+	time.Sleep(30 * time.Millisecond)
+	flush("EV:settle")
+	granted := role == ship.ShipRoleClient
+	ended, denied := false, false
+	endedBy := ""
+	cbs, maxRank, maxAt := 0, 0, 0
+	for _, o := range all {
+		switch {
+		case o == "Qp1" || o == "Qa1":
+			granted = true
+		case strings.HasPrefix(o, "EV:approve:"):
+			granted = true
+		case strings.HasPrefix(o, "PANIC"):
+			res.bad = append(res.bad, "C08 "+o)
+		case strings.HasPrefix(o, "CB:"):
+			cbs++
+			ended, endedBy = true, o
+		case o == "SETUP":
+			if denied {
+				res.bad = append(res.bad, "C01 the remote device was set up after the local side had aborted the handshake (activities "+desc+")")
+			}
+		case strings.HasPrefix(o, "WSC:"):
+			ended, endedBy = true, o
+		case len(o) > 1 && o[0] == 'S' && o[1] >= '0' && o[1] <= '9':
+			n := 0
+			fmt.Sscanf(strings.TrimSuffix(o[1:], "e"), "%d", &n)
+			if (n == 13 || (n >= 18 && n <= 38)) && !granted {
+				res.bad = append(res.bad, fmt.Sprintf("C01 state %d reported although trust was never granted (activities %s)", n, desc))
+			}
+			if ended && !isEndState(n) && n != 14 {
+				res.obs = append(res.obs, fmt.Sprintf("C04 progress state %d reported after the connection had ended (%s); concurrent activities %s", n, endedBy, desc))
+			}
+			if n == 38 && denied {
+				res.bad = append(res.bad, "C01 the handshake completed after the local side had aborted it (activities "+desc+")")
+			}
+			if rk := phaseRank(n); rk >= 0 && !ended {
+				if rk < maxRank {
+					res.obs = append(res.obs, fmt.Sprintf("C04 state %d reported after state %d: the handshake went back a phase; concurrent activities %s", n, maxAt, desc))
+				} else if rk > maxRank {
+					maxRank, maxAt = rk, n
+				}
+			}
+			if n == 15 {
+				denied = true
+			}
+			if isEndState(n) {
+				ended, endedBy = true, o
+			}
+		}
+	}
+	if cbs > 1 {
+		res.bad = append(res.bad, fmt.Sprintf("C11 the end of the connection was reported %d times", cbs))
+	}
+	if _, running, _, _, _ := conn.VerifSnapshot(); running && ended && w.isClosed() {
+		res.obs = append(res.obs, "C04 a handshake timer is armed on a connection that has ended and is closed (activities "+desc+")")
+	}
+	res.line = fmt.Sprintf("sched role=%s env=%s%s%s race=%s@%d raced=%s | %s", rs, b01(e.paired), b01(e.auto), b01(e.allow), desc, raceAt, b01(raced), strings.Join(all, " "))
+	conn.CloseConnection(false, 0, "")
+	return res
 }
